@@ -202,8 +202,11 @@ func (v *Vue) loadCachedWithFrontMatter(filename string) (map[string]any, []*htm
 		v.templateMu.Unlock()
 	}
 
-	// Cache miss or file changed - reload
-	frontMatter, templateBytes, err := v.loader.loadFragment(filename)
+	// Cache miss or file changed - reload. The modification time stored with the entry is
+	// taken from the same open file as the content (not from the Stat above, nor from a second
+	// Stat afterwards): however the file changes around or during the load, the entry describes
+	// one state of the file, so a later validation can only hit it while the file is in that state.
+	frontMatter, templateBytes, loadedModTime, loadedStatOK, err := v.loader.loadFragmentStat(filename)
 	if err != nil {
 		return nil, nil, err
 	}
@@ -213,13 +216,7 @@ func (v *Vue) loadCachedWithFrontMatter(filename string) (map[string]any, []*htm
 		return nil, nil, err
 	}
 
-	// Cache the result only if the file did not change while it was being read: otherwise the
-	// content just parsed may be newer than currentModTime, and once the file is put back to
-	// its previous state (old content, old mtime) the validation above would hit this entry forever.
-	if !statOK {
-		return frontMatter, dom, nil
-	}
-	if info, err := fs.Stat(v.templateFS, filename); err != nil || !info.ModTime().Equal(currentModTime) {
+	if !loadedStatOK {
 		return frontMatter, dom, nil
 	}
 
@@ -227,7 +224,7 @@ func (v *Vue) loadCachedWithFrontMatter(filename string) (map[string]any, []*htm
 	v.templateCache[filename] = &templateCacheEntry{
 		dom:         dom,
 		frontMatter: frontMatter,
-		modTime:     currentModTime,
+		modTime:     loadedModTime,
 	}
 	v.templateMu.Unlock()
 
